@@ -15,7 +15,8 @@ def scenarios(tier):
 def run(tier, seed):
     cr = common.engine_check(PROP, scenarios(tier), MONITORS, tier, seed)
     from . import c04
-    jobs, by_name, npoints, scs = c04.build_jobs(tier, MONITORS, names=CRASH_SCENARIOS, variants=CRASH_VARIANTS)
+    # (the same job set in both tiers: C04's own thorough tier explores the deeper recovery space)
+    jobs, by_name, npoints, scs = c04.build_jobs("quick", MONITORS, names=CRASH_SCENARIOS, variants=CRASH_VARIANTS)
     outs = common.explore_many("checks.monsets", "crash", jobs, seed)
     tot, samples = common.collect(cr, outs, by_name, lambda v: v["monitor"] in MONITORS, "crash")
     cov = cr.coverage
